@@ -100,6 +100,14 @@ func checkHTTPInteractionSerialization(i *HTTPInteraction, try func(any, *direct
 	return nil
 }
 
+// CheckSerialization makes sure that the path variables can be serialized.
+func (pv *PathVariables) CheckSerialization() error {
+	if _, err := json.Marshal(pv); err != nil {
+		return unwrapMarshalerError(err)
+	}
+	return nil
+}
+
 func unwrapMarshalerError(err error) error {
 	var me *json.MarshalerError
 	for errors.As(err, &me) && me.Unwrap() != nil {
